@@ -740,13 +740,13 @@ class X:
         ("import-collision", {"t": "obj", "c": O, "kw": [["any", {"t": "obj", "c": X2, "kw": [["a", I(2)]]}],
                                                           ["x", {"t": "obj", "c": X1, "kw": [["a", I(1)]]}]]}),
         ("qname-quote", {"t": "obj", "c": O, "kw": [["any", Q('a"b')]]}),
-        ("duration-newline", {"t": "obj", "c": O, "kw": [["any", {"t": "dur", "v": [ord(c) for c in "P1Y\n"]}]]}),
         ("init-false", {"t": "obj", "c": O, "kw": [], "set": [["fx", S("changed")]]}),
         ("stdlib-date", {"t": "obj", "c": O, "kw": [["any", {"t": "std", "k": "date", "args": ["2020", "1", "2"]}]]}),
         ("ok-nontrivial", {"t": "obj", "c": O, "kw": [
             ["a", I(1)], ["inner", {"t": "obj", "c": [m1, ["Outer", "Inner"]], "kw": [["v", F(float("nan"))]]}],
             ["e", {"t": "enum", "c": [m1, ["Color"]], "m": "RED"}],
             ["any", {"t": "list", "v": [D("NaN"), Q("{u}l"), S("a'b\"c\\\n"), F(float("-inf")), {"t": "tuple", "v": []},
+                                        {"t": "dur", "v": [ord(c) for c in "P1Y\n"]},   # stripped by XmlDuration
                                         {"t": "dict", "v": [[S("k"), {"t": "bytes", "k": "hex", "v": [0, 39]}]]}]}]]}),
     ]
     return {"pkg": "c18wit", "modules": {m1: src, m2: src2}, "cases": [c for _, c in cases]}, [n for n, _ in cases]
@@ -761,7 +761,6 @@ CLASSES = [("class_array", "array-rendered-as-list"),
            ("class_enum", "inner-enum-unqualified"),
            ("class_imports", "import-name-collision"),
            ("class_raw_qname", "qname-text-unescaped"),
-           ("class_raw_xml", "duration-text-unescaped"),
            ("class_init", "init-false-field-not-default"),
            ("class_std", "stdlib-datetime-unqualified")]
 
